@@ -4,6 +4,7 @@ package bkl
 
 func init() {
 	vRegister("HarnessC11_output", HarnessC11_output)
+	vRegister("HarnessC11_dupmarkers", HarnessC11_dupmarkers)
 	vRegister("HarnessC11_stream", HarnessC11_stream)
 	vRegister("HarnessC11_witness", HarnessC11_witness)
 	vRegister("HarnessC11_symleaf", HarnessC11_symleaf)
@@ -303,6 +304,47 @@ func c11CheckX(docs []any, excludeKnown bool) {
 	got2, err2 := c11Eval(docs)
 	vOrderGlobal(0)
 	vAssert("C11.order.fixed", err2 == nil && vEq(got2, got))
+}
+
+// HarnessC11_dupmarkers: a list that carries its marker entry more than once
+// (layering produces this: the upper layer repeats the marker of the list it
+// appends to) behaves like the list with the marker once: every marker entry
+// is the list's own marker, none of them is an element.
+func HarnessC11_dupmarkers() {
+	b := ndChoice(2) == 1
+	mk := func() any { return map[string]any{"$output": b} }
+	e1, e2 := c11Tree(1), c11Tree(1)
+	vAssume(!c11IsMarkerEntry(e1) && !c11IsMarkerEntry(e2))
+	var dup, single []any
+	switch ndChoice(4) {
+	case 0:
+		dup = []any{mk(), mk(), e1, e2}
+	case 1:
+		dup = []any{mk(), e1, mk(), e2}
+	case 2:
+		dup = []any{e1, mk(), e2, mk(), mk()}
+	default:
+		dup = []any{mk(), e1, e2, mk()}
+	}
+	single = []any{mk(), vCopy(e1), vCopy(e2)}
+	w := ndChoice(2)
+	mkDoc := func(l []any) any {
+		if w == 0 {
+			return map[string]any{"keep": 0, "l": l}
+		}
+		return map[string]any{"$output": false, "h": map[string]any{"l": l, "x": 0}}
+	}
+	vObserve("dup", dup)
+	got, err := c11Eval([]any{mkDoc(dup)})
+	want, err2 := c11Eval([]any{mkDoc(single)})
+	vAssert("C11.dupmarkers.noerror", err == nil && err2 == nil)
+	vObserve("got", got)
+	vObserve("want", want)
+	vAssert("C11.dupmarkers.same", vEq(got, want))
+	for _, g := range got {
+		vAssert("C11.dupmarkers.nomarker", c11NoMarker(g))
+	}
+	vCover("dupmarkers.checked")
 }
 
 // HarnessC11_output: one document, map-rooted, depth <= 2 (quick) / 3 (thorough).
